@@ -205,7 +205,7 @@ def scenarios(tier):
                             domains=("hdlc",), frontier=6, assumptions=A, replay_cap=40))
         out.append(Scenario(f"hdlc reader {name}: 7E + 7 header-like + {3 if q else 4} free + 7E", hdlc_structured(name, 7, 3 if q else 4), bounds={"free_octets": 3 if q else 4, "splittings": "every single cut"},
                             domains=("hdlc",), frontier=6, assumptions=A, replay_cap=40))
-    k = 3 if q else 5
+    k = 3 if q else 4
     out.append(Scenario(f"p1 reader + readout accessors: six noise families, {k} free octets", p1_reader_path(k, False),
                         bounds={"families": "free | '/'+free+LF | ident+free+LF | ident+data+'!'+free+LF | '!' inside ident line | free in data and after '!'", "free_octets": k, "splittings": "every single cut"},
                         domains=("p1",), frontier=6, assumptions=A, replay_cap=60))
